@@ -82,6 +82,10 @@ static int flushData(scpi_t * context) {
 static size_t writeDelimiter(scpi_t * context) {
     if (context->output_count > 0) {
         return writeData(context, ",", 1);
+    } else if (context->separator_pending) {
+        /* first result of this unit and some previous unit has already responded */
+        context->separator_pending = FALSE;
+        return writeData(context, ";", 1);
     } else {
         return 0;
     }
@@ -129,10 +133,8 @@ static scpi_bool_t processCommand(scpi_t * context) {
     scpi_bool_t result = TRUE;
     scpi_bool_t is_query = context->param_list.cmd_raw.data[context->param_list.cmd_raw.length - 1] == '?';
 
-    /* conditionally write ; */
-    if(!context->first_output && is_query) {
-        writeData(context, ";", 1);
-    }
+    /* conditionally write ; - in front of the first result of this unit, see writeDelimiter() */
+    context->separator_pending = !context->first_output && is_query;
 
     context->cmd_error = FALSE;
     context->output_count = 0;
@@ -149,13 +151,19 @@ static scpi_bool_t processCommand(scpi_t * context) {
         } else {
             if (context->cmd_error) {
                 result = FALSE;
-            } else {
-                if(context->first_output && is_query) {
-                    context->first_output = FALSE;
-                }
+            } else if (is_query && (context->output_count == 0)) {
+                /* successful query without any result is an empty response unit */
+                writeDelimiter(context);
+                context->first_output = FALSE;
             }
         }
+
+        /* this unit has responded - response message has to be terminated, next unit separated */
+        if (is_query && (context->output_count > 0)) {
+            context->first_output = FALSE;
+        }
     }
+    context->separator_pending = FALSE;
 
     /* set error if command callback did not read all parameters */
     if (state->pos < (state->buffer + state->len) && !context->cmd_error) {
